@@ -177,7 +177,7 @@ func genSmallCmd(out string, seed uint64, thorough bool) error {
 
 	nscripts := 200
 	if thorough {
-		nscripts = 500
+		nscripts = 300
 	}
 	if v, err := strconv.Atoi(os.Getenv("VERIF_C16_SCRIPTS")); err == nil && v > 0 {
 		nscripts = v
